@@ -64,6 +64,14 @@ fn check_range(rep: &Report, f: i64, l: i64, s: i64) {
             Err(_) => if !known(rep, len_overflows(f, l, s)) { rep.violation("range length panics", d("len", json!({"expected": want_len.to_string()}))); },
         }
     }
+    // a span that does not fit usize: len() still answers (no panic) and does not call a non-empty range empty
+    if want_len > usize::MAX as u128 {
+        match catch_unwind(AssertUnwindSafe(|| (r.len(), r.is_empty()))) {
+            Ok((n, empty)) if n > 0 && !empty => {}
+            Ok((n, empty)) => rep.violation("range length wrong", d("len of a span beyond usize", json!({"got": n, "is_empty": empty, "expected": want_len.to_string()}))),
+            Err(_) => rep.violation("range length panics", d("len of a span beyond usize", json!({"expected": want_len.to_string()}))),
+        }
+    }
     // contains
     let mut probes = vec![f, l, 0, 1, -1, i64::MIN, i64::MAX, f.wrapping_add(s), l.wrapping_sub(s), f.wrapping_add(1), l.wrapping_add(1), f / 2 + l / 2];
     probes.sort();
@@ -298,6 +306,33 @@ fn sets_and_exceptions(rep: &Report) {
     for bad in [struct_map("Elixir.MapSet", vec![("map", int(1))]), struct_map("Elixir.MapSet", vec![("map", OwnedTerm::Tuple(vec![atom("dict"), int(0), map_of(vec![])]))]), struct_map("Elixir.Range", vec![("map", OwnedTerm::Tuple(vec![atom("set"), int(0), map_of(vec![])]))]), OwnedTerm::Nil] {
         rep.add("evaluations", 1);
         if ElixirMapSet::from_term(&bad).is_some() { rep.violation("map set fabricated from a wrong shape", json!({"term": crate::denote::denote(&bad).short()})); }
+    }
+    // exceptions that carry an arbitrary term: every leaf of the alphabet and the atoms a struct reader may take for "no value"
+    {
+        let mut terms: Vec<OwnedTerm> = leaves.clone();
+        terms.extend([atom("nil"), atom("undefined"), atom("true"), atom("false"), atom(""), OwnedTerm::Nil, OwnedTerm::Tuple(vec![]), map_of(vec![]), OwnedTerm::Binary(vec![]), int(0)]);
+        macro_rules! term_exception { ($ty:ident) => {
+            for t0 in &terms {
+                rep.add("evaluations", 1);
+                let e = $ty::new(t0.clone());
+                let t: OwnedTerm = e.clone().into();
+                if $ty::from_term(&t).as_ref() != Some(&e) || wire(&t).and_then(|w| $ty::from_term(&w)).map(|b| crate::denote::denote(&b.clone().into())).map(|d| vcore::refval::exact_eq(&d, &crate::denote::denote(&t))) != Some(true) {
+                    rep.violation(concat!(stringify!($ty), " does not convert back"), json!({"term": crate::denote::denote(t0).short()}));
+                }
+            }
+        } }
+        term_exception!(MatchError); term_exception!(BadMapError); term_exception!(BadFunctionError); term_exception!(CaseClauseError); term_exception!(WithClauseError);
+    }
+    // a MapSet struct whose size field and payload disagree, or whose payload is no map, is not a set
+    for (size, payload) in [(0i64, int(5)), (0, OwnedTerm::Nil), (0, atom("nil")), (0, OwnedTerm::List(vec![int(1)])), (0, map_of(vec![(int(1), OwnedTerm::List(vec![]))])), (1, map_of(vec![])), (2, map_of(vec![(int(1), OwnedTerm::List(vec![]))]))] {
+        rep.add("evaluations", 1);
+        for bad in [struct_map("Elixir.MapSet", vec![("map", payload.clone()), ("size", int(size))]), struct_map("Elixir.MapSet", vec![("map", payload.clone()), ("size", int(size)), ("version", int(2))])] {
+            if let Some(set) = ElixirMapSet::from_term(&bad) {
+                // accepted only if it really is the set its payload describes
+                let honest = matches!(&payload, OwnedTerm::Map(m) if m.len() as i64 == size && set.len() as i64 == size);
+                if !honest { rep.violation("map set fabricated from a wrong shape", json!({"term": crate::denote::denote(&bad).short(), "accepted_with_len": set.len()})); }
+            }
+        }
     }
     for msg in ["", "boom", "größer €", &"x".repeat(300)] {
         rep.add("evaluations", 4);
